@@ -134,6 +134,34 @@ Theorem c12_refs_leak_never_closed : forall n l1 s1 l2 s2,
   run Refs.step s1 l2 = Some s2 -> Refs.in_closed s2 = false.
 Proof. exact C12X.c12_refs_leak_never_closed. Qed.
 
+(* consumer group: the partition-number watcher (loopCheckPartitionNumbers) is the goroutine that turns c.closed into the
+   end of the session when no claim ends by itself (empty assignment, or — model flag hctx — handlers that block on
+   session.Context().Done()): while Consume waits for the session context the watcher is alive or the context is
+   cancelled; a watcher that returned has cancelled it; consume goroutines exist only in a session whose watcher was
+   started; a watcher waiting in its select leaves once c.closed is closed.  c12_group_terminates is proved for
+   every number of claims (0 included) and both kinds of handler *)
+Theorem c12_group_watcher : forall c s, Grp.elock c = true -> Reach (Grp.step c) (Grp.init c) s ->
+  (Grp.cc s = Grp.CWaitCtx -> Grp.ctx_done s = true \/ Grp.lc s = Grp.LcNet \/ Grp.lc s = Grp.LcSel \/ Grp.lc s = Grp.LcExit) /\
+  (Grp.lc s = Grp.LcDone -> Grp.ctx_done s = true) /\
+  (1 <= Grp.n_start s + Grp.n_new s + Grp.n_run s + Grp.n_wait s + Grp.n_he s + Grp.n_defer s -> Grp.lc s <> Grp.LcNone) /\
+  (Grp.lc s = Grp.LcSel -> Grp.closed_ch s = true -> exists s', Grp.step c s Grp.ALStop = Some s' /\ Grp.lc s' = Grp.LcExit).
+Proof. exact C12X.c12_group_watcher. Qed.
+
+(* broker connection: b.responses / b.done exist exactly while the connection is open and past its SASL step, and then a
+   receiver goroutine exists that closes done (a Close waiting on done waits on a channel with a receiver); during
+   the SASL step and after its failure there is a / no connection, no channels and no receiver: Open whose
+   authentication fails leaves the broker as a failed dial does, and Close answers ErrNotConnected *)
+Theorem c12_broker_done_has_receiver :
+  (forall c l s, run (Broker.step c) (Broker.init c) l = Some s ->
+    (Broker.made s = true <-> (Broker.conn s = true /\ Broker.lk s <> Broker.LAuth)) /\
+    (Broker.made s = true -> Broker.rc s <> Broker.RNone) /\
+    (Broker.lk s = Broker.LClose -> Broker.made s = true /\ Broker.rc s <> Broker.RNone) /\
+    (Broker.lk s = Broker.LAuth -> Broker.conn s = true /\ Broker.made s = false /\ Broker.rc s = Broker.RNone) /\
+    (Broker.conn s = false -> Broker.made s = false /\ Broker.rc s = Broker.RNone)) /\
+  (forall c s s', Broker.lk s = Broker.LAuth -> Broker.step c s Broker.AAuthFail = Some s' ->
+    Broker.conn s' = false /\ Broker.lk s' = Broker.LFree /\ Broker.made s' = Broker.made s /\ Broker.rc s' = Broker.rc s).
+Proof. exact C12X.c12_broker_done_has_receiver. Qed.
+
 (* ================= the consumer group before fix 7d88780 (model flag elock = false) =================
    the full statement is false — an error forwarder that passed handleError's closed check before Close was called
    sends on c.errors after Close closed it ... *)
